@@ -59,11 +59,12 @@ class CE(asyncio.CancelledError, E1):
 
 
 CLASSES = {"CE": CE, "Ex": Exception, "Cn": asyncio.CancelledError, "Bx": BaseException, "E1": E1, "E1s": E1s, "E2": E2,
-           "BE": BE, "Cs": Cs}
+           "BE": BE, "Cs": Cs, "SI": StopIteration}
 NAMES = {v: k for k, v in CLASSES.items()}
-KIND_CLS = {"ce": CE, "e1": E1, "e1s": E1s, "e2": E2, "cn": asyncio.CancelledError, "cs": Cs, "be": BE, "xc": asyncio.CancelledError}
+KIND_CLS = {"ce": CE, "e1": E1, "e1s": E1s, "e2": E2, "cn": asyncio.CancelledError, "cs": Cs, "be": BE, "xc": asyncio.CancelledError,
+            "si": StopIteration}      # sync variants only: a coroutine cannot raise StopIteration
 SIX = ["ok", "e1", "e1s", "e2", "cn", "be"]
-ALL_KINDS = SIX + ["cs", "xc", "ce"]
+ALL_KINDS = SIX + ["cs", "xc", "ce", "si"]
 CATCH_EX = ["c:E1", "t:E1,E2", "s:E1", "s:E1s,E2", "t:Ex,Cn,Bx", "d"]
 DELAY_EX = ["n", "i2", "f3", "b1", "fn:2,1,0"]
 CATCH_RND = CATCH_EX + ["c:Ex", "c:E1s", "t:E2", "s:E1,E2,BE", "t:E1s,Cs", "c:Cn", "s:Bx", "t:E1,E1s"]
@@ -86,7 +87,9 @@ def parse(case: str):
         return None
     variant, lim, cat, dl = toks[:4]
     kinds = toks[4:]
-    if variant not in ("s", "a", "A", "sp", "ap", "Ap") or any(k not in ALL_KINDS for k in kinds):
+    if variant not in ("s", "a", "A", "sp", "ap", "Ap", "aw") or any(k not in ALL_KINDS for k in kinds):
+        return None
+    if "si" in kinds and not variant.startswith("s"):
         return None
     bare = lim == "-"
     try:
@@ -221,6 +224,7 @@ def run_real(case: str) -> str:
         return "bad-case"
     variant, bare, limit, form, classes, delay, kinds = p
     partial_form = variant.endswith("p")
+    wraps_sync = variant == "aw"
     variant = variant[0]
     raised: dict[int, BaseException] = {}
     starts: list[float] = []
@@ -321,6 +325,13 @@ def run_real(case: str) -> str:
                 import functools
 
                 fn = functools.partial(fn)
+            if wraps_sync:
+                import functools
+
+                def blocking(*a, **k):    # the synchronous original an adapter was written for
+                    raise AssertionError("never called")
+
+                fn = functools.wraps(blocking)(fn)     # an async adapter whose `__wrapped__` chain ends in a sync function
             try:
                 wrapped = retry(fn) if bare else retry(**kwargs)(fn)
             except AssertionError:
@@ -492,6 +503,10 @@ def corpus():
         # int delay: TypeError on the pinned tree ('int' object is not callable)
         "s 1 c:E1 i2 e1",
         "a 1 c:E1 i2 e1",
+        # StopIteration is an Exception like any other (sync wrappers)
+        "s 2 c:E1 n e1 si", "s 2 c:SI n si si si", "sp 1 d i1 si ok", "s 3 t:E1,SI f1 e1 si e2",
+        # an async adapter over a sync original (`functools.wraps(blocking)`)
+        "aw 2 c:E1 n e1 e1 ok", "aw 1 d i1 e2 ok", "aw 3 t:E1,E2 n e1 e2 be",
         "s 2 d i3 e1 e2 ok",
         "A 3 t:E1,E2 i1 e1 e2 e1s e1",
         "s 1 d i0 e1",
@@ -601,7 +616,12 @@ def _extra_cases(rng, n: int):
         r = rng.random()
         if r < 0.35:
             seq = [rng.choice(kinds) for _ in range(rng.randint(0, limit + 2))]
-            yield " ".join([rng.choice(["sp", "ap", "Ap", "s", "a"]), str(limit), cat, rng.choice(DELAY_RND), *seq])
+            v = rng.choice(["sp", "ap", "Ap", "s", "a", "aw", "aw"])
+            if v.startswith("s") and rng.random() < 0.5:
+                # a retried reader built on `next(...)`: the final outcome is a StopIteration (sync wrappers only)
+                seq.insert(rng.randint(0, len(seq)), "si")
+                cat = rng.choice([cat, "c:SI", "t:E1,SI", "d"])
+            yield " ".join([v, str(limit), cat, rng.choice(DELAY_RND), *seq])
         else:
             a = [rng.choice(["e1", "e1", "e1s", "e2", "ok"]) for _ in range(rng.randint(0, limit + 2))]
             b = [rng.choice(["e1", "e1", "e1s", "e2", "ok"]) for _ in range(rng.randint(0, limit + 2))]
